@@ -116,6 +116,10 @@ func c20Queries(rng *rand.Rand) c20Query {
 		{sql: "SELECT id, k, changed_cols('c_', true, v) FROM stream", kind: "analytic-multi", analytic: []string{"changed_cols('c_', true, v)"}, multi: []bool{true}},
 		{sql: "SELECT id, CASE WHEN v > 5 THEN 'hi' WHEN w > 5 THEN 'mid' ELSE 'lo' END AS r FROM stream", kind: "expr"},
 		{sql: "SELECT k, sum(v + w) AS s, max(v + w) AS m, count(*) AS c FROM stream GROUP BY k, CountingWindow(" + N + ")", kind: "window", window: n, group: []string{"k"}},
+		// a FROM alias without a JOIN: the row is still the caller's map (no enriched copy exists)
+		{sql: "SELECT upper(k) AS uk, count(*) AS c FROM stream s GROUP BY upper(k), CountingWindow(" + N + ")", kind: "groupfn", window: n, group: []string{"upper(k)"}},
+		{sql: "SELECT id, lag(v) AS p FROM stream s", kind: "analytic-select", analytic: []string{"p"}},
+		{sql: "SELECT id FROM stream s WHERE had_changed(true, v)", kind: "analytic-where", places: 1},
 		{sql: "SELECT s.id, m.loc FROM stream s JOIN meta m ON s.dev = m.dev", kind: "join", join: true},
 		{sql: "SELECT s.id, m.loc FROM stream s LEFT JOIN meta m ON s.dev = m.dev WHERE s.v > 1", kind: "join", join: true},
 		{sql: "SELECT s.id, m.loc, lag(s.v) AS p FROM stream s JOIN meta m ON s.dev = m.dev", kind: "join-analytic", join: true, analytic: []string{"p"}},
